@@ -1,4 +1,5 @@
 import OpenFecVerif.Proofs.Blocking
+import OpenFecVerif.Proofs.BlockingI
 /-!
 # C20 — eperftool block partitioning follows RFC 5052
 
@@ -80,6 +81,27 @@ theorem C20_integer_structure (T B : ℕ) (hT : 1 ≤ T) (hB : 1 ≤ B) :
       have : r * (q + 1) + (N - r) * q = N * q + r := by
         zify [hle]; ring
       omega
+
+/-- **C20, full statement.** For every object length 1 ≤ L < 2^32, symbol size E ≥ 1 and maximum block size B ≥ 1, under ANY
+rounding operator satisfying the binary64 standard model, the four outputs are the RFC 5052 partition of T = ⌈L/E⌉ symbols into
+N = ⌈T/B⌉ blocks: A_large = ⌈T/N⌉, A_small = ⌊T/N⌋, I = T mod N — and therefore (C20_integer_structure) A_large ≤ B and
+I·A_large + (N − I)·A_small = T. -/
+theorem C20_full (rn : ℚ → ℚ) (h : RN53 rn) (B L E i0 i1 i2 i3 : ℕ)
+    (hB : 1 ≤ B) (hE : 1 ≤ E) (hL1 : 1 ≤ L) (hL : L < 2 ^ 32) (hBlt : B < 2 ^ 32) (hElt : E < 2 ^ 32) :
+    let bs := of_compute_blocking_struct rn i0 i1 i2 i3 B L E
+    let T := cdiv L E
+    let N := cdiv T B
+    bs.1 = N ∧ bs.2.1 = cdiv T N ∧ bs.2.2.1 = T / N ∧ bs.2.2.2 = T % N ∧
+    bs.2.1 ≤ B ∧ bs.2.2.2 * bs.2.1 + (bs.1 - bs.2.2.2) * bs.2.2.1 = T := by
+  intro bs T N
+  have hm := blocking_main rn h B L E i0 i1 i2 i3 hB hE hL1 hL hBlt hElt
+  have hi := blocking_I rn h B L E i0 i1 i2 i3 hB hE hL1 hL hBlt hElt
+  have hT1 : 1 ≤ T := cdiv_pos L E hL1 hE
+  have hs := C20_integer_structure T B hT1 hB
+  refine ⟨hm.1, hm.2.1, hm.2.2, hi, ?_, ?_⟩
+  · show bs.2.1 ≤ B; rw [hm.2.1]; exact hs.1
+  · show bs.2.2.2 * bs.2.1 + (bs.1 - bs.2.2.2) * bs.2.2.1 = T
+    rw [hi, hm.1, hm.2.1, hm.2.2]; exact hs.2.1
 
 -- non-vacuity: the hypotheses are satisfiable (L = 10, E = 1, B = 3; exact arithmetic is in RN53)
 example : RN53 id ∧ cdiv (cdiv 10 1) 3 = 4 := ⟨RN53_id, by decide⟩
